@@ -10,28 +10,41 @@ assert_level_constraint), each against a reference written from the property sta
 (2) filter_constraint_table / is_allowed_combination / allowed_values_for against the
     definition "a combination is allowed iff some column contains every given value", the
     property's equivalence  v in allowed_values_for(T,k,vals) <=> is_allowed(T, vals+{k:v}),
-    and the validator's one-value-at-a-time check (the real assert_level_constraint run on the
-    enumerated table) against "every prefix is an allowed combination".
-(3) read_constraints_from_csv against an independent reader of the documented CSV format, on
-    seeded random CSV texts and on the shipped level_constraints.csv.
+    and the validator's one-value-at-a-time check: the real assert_level_constraint(state, key,
+    value) on a State, with the enumerated table substituted for the module-level
+    LEVEL_CONSTRAINTS (restored in a finally), keys named like the real level-table keys
+    ("level" in every position or absent), ALL orders of the keys, a key given again, a key no
+    column lists -- against "the dictionary of the values accepted so far plus the new value is
+    an allowed combination" (i.e. every prefix is allowed).
+(3) read_constraints_from_csv against an independent reader of the documented CSV format: an
+    exhaustive grid over the kinds of cell (ditto in every column incl. the first, after every
+    kind of cell, on consecutive rows, with comment / blank rows between), seeded random CSV
+    texts, and the shipped level_constraints.csv.
+(4) the same validator clause on the real level table: every ordered pair of keys, "level" with
+    every ordered pair of other keys in each position, seeded random walks (key orders shuffled,
+    "level" first / later / absent / twice, keys given again), against the independent parse of
+    the shipped CSV.
 
 The reference never calls or copies the code under check.  All bounds are stated in the
 `domain` strings of the evidence.
 """
 import ast
+import copy
 import itertools
 import multiprocessing
 import os
 import random
 import shutil
 import tempfile
+import time
 import traceback
 from collections import OrderedDict
 from enum import IntEnum
 
 ANY = "<ANY>"  # model of AnyValue: contains everything
 MAX_FAIL_PER_KIND = 3  # replay files written per kind of failure
-NPROC = max(1, min(16, os.cpu_count() or 1))
+# the machine is shared: the quick tier uses at most 8 worker processes (VERIF_C17_NPROC overrides; thorough tier: 16, see check_c17)
+NPROC = max(1, min(int(os.environ.get("VERIF_C17_NPROC", "8")), os.cpu_count() or 1))
 
 
 # ------------------------------------------------------------------------------------------------
@@ -92,7 +105,7 @@ def _pool_map(fn, jobs):
         return [fn(j) for j in jobs]
     ctx = multiprocessing.get_context("fork")
     with ctx.Pool(NPROC) as pool:
-        return list(pool.imap_unordered(fn, jobs, chunksize=1))
+        return list(pool.imap_unordered(fn, jobs, chunksize=max(1, min(8, len(jobs) // (NPROC * 8)))))
 
 
 # ================================================================================================
@@ -306,9 +319,64 @@ def _w_programs(job):
     return n_eval, states, fails
 
 
+def _separated_ranges(n, k, start=0):
+    """all lists of k ranges over start..n-1, each lying entirely below the next (no value in common)"""
+    if k == 0:
+        yield []
+        return
+    for lo in range(start, n):
+        for hi in range(lo, n):
+            for rest in _separated_ranges(n, k - 1, hi + 1):
+                yield [(lo, hi)] + rest
+
+
+def _w_chains(job):
+    """k separated ranges, added in several orders, then one more atom (every value and every range of the universe): the
+    last atom may bridge two, three or all of the earlier ranges (a chain of merges)."""
+    n, k, part, nparts, seed = job
+    ct = _load()
+    finals, probes, flavour = _universe("int%d" % n)
+    fails = _Fails()
+    n_eval = n_two = n_three = 0
+    if k <= 3:
+        modes = [(k + 1, ()), (0, ("M",) * (k + 1)), ("S", k), (k, ("L",))]
+    else:
+        modes = [(k + 1, ()), (0, ("M",) * (k + 1)), ("S", k)]
+    for bi, base in enumerate(_separated_ranges(n, k)):
+        if bi % nparts != part:
+            continue
+        atoms = [_Atom("r", r, frozenset(range(r[0], r[1] + 1)), repr(r)) for r in base]
+        if k <= 3:
+            orders = list(itertools.permutations(atoms))
+        else:
+            mixed = list(atoms)
+            random.Random(seed * 31 + bi).shuffle(mixed)
+            orders = [tuple(atoms), tuple(reversed(atoms)), tuple(mixed)]
+        for od in orders:
+            for fin in finals:
+                touched = sum(1 for a in atoms if a.model & fin.model)
+                seq = list(od) + [fin]
+                model = frozenset().union(*[a.model for a in seq])
+                for mi, mode in enumerate(modes):
+                    n_eval += 1
+                    n_two += 1 if touched >= 2 else 0
+                    n_three += 1 if touched >= 3 else 0
+                    try:
+                        vs = _build(ct.ValueSet, seq, mode)
+                        bad = _check_set(ct, vs, model, probes, flavour, views=(mi == 0 or (mi == 1 and touched >= 2)))
+                    except Exception:
+                        bad = [("valueset-exception", "no exception", traceback.format_exc(limit=4))]
+                    for kind, exp, obs in bad:
+                        fails.add(kind, lambda: {"what": "%s: ValueSet does not denote the union of its listed values and inclusive ranges (chain of range merges)" % kind,
+                                         "inputs": {"program": _program_text(seq, mode), "universe": "int%d" % n},
+                                         "expected": exp, "observed": obs})
+    return n_eval, n_two, n_three, fails
+
+
 def _small_sets(ct, atoms, max_atoms, lo=0, hi=None):
     """[(object, model, text)] for the sequences number lo..hi-1 of the family of all sequences of <= max_atoms
-    atoms, built alternately through the constructor and through the methods."""
+    atoms, built in turn through the constructor, through the methods, through right unions (vs + ValueSet(atom)) and
+    through left unions (ValueSet(atom) + vs), so that is_disjoint / + / == also see operands that are union results."""
     out = []
     k = -1
     for m in range(max_atoms + 1):
@@ -317,7 +385,7 @@ def _small_sets(ct, atoms, max_atoms, lo=0, hi=None):
             if k < lo or (hi is not None and k >= hi):
                 continue
             seq = [atoms[i] for i in idx]
-            mode = (m, ()) if k % 2 == 0 else (0, ("M",) * m)
+            mode = ((m, ()), (0, ("M",) * m), (0, ("R",) * m), (0, ("L",) * m))[k % 4]
             model = frozenset().union(*[a.model for a in seq]) if seq else frozenset()
             out.append((_build(ct.ValueSet, seq, mode), model, _program_text(seq, mode)[5:]))
     return out
@@ -467,13 +535,36 @@ def _part_valueset(rep, tier, seed):
         note="distinct = number of distinct denoted sets reached (%s); <= %d operations; each evaluation is one program run on the real class followed by %d membership queries"
              % (", ".join("%s: %d" % (k, len(v)) for k, v in sorted(states.items())), max_ops, len(probes)))
 
+    # ---- chains of merges: 3 (4) separated ranges, then one atom that may bridge several of them
+    cn3, cn4 = (8, 9) if thorough else (7, 8)
+    jobs = [(cn3, 3, i, NPROC, seed) for i in range(NPROC)] + [(cn4, 4, i, NPROC, seed) for i in range(NPROC)]
+    c_eval = c_two = c_three = 0
+    for (ne, n2, n3, fl) in _pool_map(_w_chains, jobs):
+        c_eval += ne
+        c_two += n2
+        c_three += n3
+        total.merge(fl)
+    rep.add_bounded(
+        "C17.valueset.chains",
+        "EXHAUSTIVE: every list of 3 separated ranges over 0..%d (in all 6 orders) and every list of 4 separated ranges over 0..%d (listed order, reversed, one seeded "
+        "shuffle), followed by every single value and every range of the universe, which may lie apart from, inside, or bridge two, three or all of the earlier ranges; built "
+        "by the constructor, by add_range/add_value only, as ValueSet(ranges) + ValueSet(last) and (3 ranges) ValueSet(last) + ValueSet(ranges); membership for every x in "
+        "-1..n against the frozenset union; iteration, iter_values, str and repr on the constructor form and, when the last atom bridges, on the method form" % (cn3 - 1, cn4 - 1),
+        c_eval, True, distinct=c_two,
+        note="distinct = programs whose last atom overlaps at least two of the earlier ranges (%d overlap at least three); 4 and 5 operations" % c_three)
+
     # ---- pairs: is_disjoint, union, equality soundness
     fam2 = 1 + na + na * na
-    fam3 = fam2 + na ** 3
     step = max(1, fam2 // (NPROC * 4))
     jobs = [(uname, 2, (lo, min(fam2, lo + step)), 2, seed) for lo in range(0, fam2, step)]
-    step3 = max(1, (fam3 - fam2) // (NPROC * 4))
-    jobs += [(uname, 3, (lo, min(fam3, lo + step3)), 1, seed) for lo in range(fam2, fam3, step3)]
+    # (quick tier: the 3-atom operands over a universe one value smaller)
+    n3 = n if thorough else n - 1
+    uname3 = "int%d" % n3
+    na3 = len(_universe(uname3)[0])
+    fam2_3 = 1 + na3 + na3 * na3
+    fam3 = fam2_3 + na3 ** 3
+    step3 = max(1, (fam3 - fam2_3) // (NPROC * 4))
+    jobs += [(uname3, 3, (lo, min(fam3, lo + step3)), 1, seed) for lo in range(fam2_3, fam3, step3)]
     jobs += [("str", 2, (0, 13), 2, seed), ("mixed", 2, (0, 1 + 20 + 400), 2, seed)]
     n_pairs = n_overlap = eq_inc = 0
     for (ne, no, ei, fl) in _pool_map(_w_pairs, jobs):
@@ -483,9 +574,10 @@ def _part_valueset(rep, tier, seed):
         total.merge(fl)
     rep.add_bounded(
         "C17.valueset.pairs",
-        "EXHAUSTIVE: all pairs (A, B) of ValueSets with A, B each built from <= 2 atoms, and A from exactly 3 atoms with B from <= 1 atom, over the integer universe 0..%d "
+        "EXHAUSTIVE: all pairs (A, B) of ValueSets with A, B each built from <= 2 atoms over the integer universe 0..%d, and A from exactly 3 atoms with B from <= 1 atom over "
+        "0..%d (the operands built in turn by the constructor, by add_value/add_range, by right unions and by left unions) "
         "(also <= 2 x <= 2 atoms over the string and mixed universes): A.is_disjoint(B) and B.is_disjoint(A) == (intersection empty); A + B contains exactly the union (probes -1..%d); "
-        "A == B implies equal sets and != is its negation; equal objects hash equally; no operand is changed" % (n - 1, n),
+        "A == B implies equal sets and != is its negation; equal objects hash equally; no operand is changed" % (n - 1, n3 - 1, n),
         n_pairs, True, distinct=n_overlap,
         samples=_samples_pairs(ct),
         note="distinct = pairs with a non-empty intersection. Equality is only checked for soundness: the property and the docstrings do not promise that equal sets compare "
@@ -580,9 +672,9 @@ def _cell_variants(ct, u):
     return out
 
 
-def _table_from_digits(digits, ncols, keys, cells, special, rot):
+def _table_from_digits(digits, ncols, keys, cells, special, rot, reverse=False):
     """digits: one per (column, key).  digit < len(cells): that subset; then the specials in `special`
-    ('ANY' -> AnyValue cell, 'MISSING' -> key absent from the column)."""
+    ('ANY' -> AnyValue cell, 'MISSING' -> key absent from the column).  reverse: columns listed last to first."""
     real, model, text = [], [], []
     p = 0
     for c in range(ncols):
@@ -605,6 +697,10 @@ def _table_from_digits(digits, ncols, keys, cells, special, rot):
         real.append(rc)
         model.append(mc)
         text.append("{%s}" % ", ".join(tc))
+    if reverse:
+        real.reverse()
+        model.reverse()
+        text.reverse()
     return real, model, "[%s]" % ", ".join(text)
 
 
@@ -652,7 +748,191 @@ def _canary_patch(ct, vmods):
         assertions.LEVEL_CONSTRAINTS, level_constraints.LEVEL_CONSTRAINTS = saved
 
 
-def _check_table(ct, vmods, real, model, ttext, keys, u, fails, counters, do_validator=True):
+# ------------------------------------------------------------------------------------------------
+# the validator clause: the real assert_level_constraint(state, key, value), one value at a time
+# ------------------------------------------------------------------------------------------------
+_MISSING = object()
+NOKEY = "c17_key_in_no_column"
+_REAL_KEYS = []  # key names of the shipped level_constraints.csv (filled by _real_key_names)
+
+
+def _m_matches_pairs(col, pairs):
+    """column lists every (key, value) pair given (a key may occur with several values)"""
+    if len(col) == 0:
+        return True
+    for k, v in pairs:
+        if k not in col:
+            return False
+        if col[k] is not ANY and v not in col[k]:
+            return False
+    return True
+
+
+def _level_csv_path():
+    import vc2_conformance
+
+    return os.path.join(os.path.dirname(os.path.abspath(vc2_conformance.__file__)), "level_constraints.csv")
+
+
+def _real_key_names():
+    """Key names of the shipped level table (own reading of the CSV), "level" first.  The synthetic tables use
+    these names so that a key the validator might treat specially is exercised in every position."""
+    if not _REAL_KEYS:
+        from pyvc import frontend
+
+        frontend.ensure_repo_on_path()
+        with open(_level_csv_path(), encoding="utf-8", newline="") as f:
+            rows = _csv_records(f.read())
+        names = []
+        for row in rows:
+            if all((not c.strip()) or c.strip().startswith("#") for c in row):
+                continue
+            if row[0] not in names:
+                names.append(row[0])
+        if "level" not in names:
+            names.insert(0, "level")
+        names.remove("level")
+        _REAL_KEYS.extend(["level"] + names)
+    return _REAL_KEYS
+
+
+def _key_names(kept, nkeys):
+    """Names of the keys of the kept-th synthetic table: distinct names of real level-table keys; "level" takes
+    position kept % (nkeys + 1) (the last choice: "level" does not occur at all)."""
+    pool = _real_key_names()[1:]
+    j = kept // (nkeys + 1)
+    names = []
+    i = 0
+    while len(names) < nkeys:
+        nm = pool[(j * 5 + i * 11) % len(pool)]
+        i += 1
+        if nm not in names:
+            names.append(nm)
+    pos = kept % (nkeys + 1)
+    if pos < nkeys:
+        names[pos] = "level"
+    return names
+
+
+def _copy_state(State, st):
+    """an independent copy of a State (so that sibling continuations of one prefix do not share anything)"""
+    new = State()
+    for k, v in st.items():
+        new[k] = OrderedDict(v) if isinstance(v, OrderedDict) else copy.deepcopy(v)
+    return new
+
+
+def _vstep(vmods, mtable, st, d, hist, k, v, probes, fails, inputs, counters):
+    """One call of the real assert_level_constraint(st, k, v), judged from the statement.
+
+    d: the dictionary of the values accepted so far (a later value of a key replaces the earlier one);
+    hist: every (key, value) pair accepted so far.  The call must accept iff d + {k: v} is an allowed combination
+    of the table (every earlier prefix was one, or the walk would not have come here).  When k already has a
+    *different* value the statement can be read two ways (the dictionary so far with the value replaced, or every
+    value ever given must fit one column): the call must accept when both readings accept, must reject when both
+    reject, and is only counted where they differ.
+    Returns True / False (accepted / rejected, legitimately) or None after a reported failure."""
+    assertions, _, VNA, State = vmods
+    ext = dict(d)
+    ext[k] = v
+    hi = _m_allowed(mtable, ext)
+    lo = hi
+    if hi and k in d and d[k] != v:
+        pairs = set(hist)
+        pairs.add((k, v))
+        lo = any(_m_matches_pairs(col, pairs) for col in mtable)
+    counters["validator"] += 1
+    exc = None
+    try:
+        assertions.assert_level_constraint(st, k, v)
+        acc = True
+    except VNA as e:  # anything else propagates: an unexpected exception is reported by the caller
+        acc = False
+        exc = e
+    rec = st.get("_level_constrained_values", None)
+    after = dict(rec) if rec is not None else {}
+    if (acc and not hi) or (lo and not acc):
+        fails.add("validator-sequence", lambda: {
+            "what": "one-at-a-time check (assert_level_constraint) does not accept exactly the sequences whose every prefix is an allowed combination",
+            "inputs": inputs(k, v), "expected": {"accepted": hi, "recorded": ext if hi else dict(d)},
+            "observed": {"accepted": acc, "recorded": after}})
+        return None
+    if lo is not hi:
+        counters["ambiguous"] += 1
+        counters["ambiguous_accepted"] += 1 if acc else 0
+    want = ext if acc else dict(d)
+    if after != want:
+        fails.add("validator-recorded", lambda: {
+            "what": "assert_level_constraint does not record exactly the accepted values (an accepted value is recorded, a rejected one changes nothing, earlier values are kept)",
+            "inputs": inputs(k, v), "expected": {"accepted": acc, "recorded": want}, "observed": {"accepted": acc, "recorded": after}})
+        return None
+    if exc is not None:
+        got = {"key": getattr(exc, "key", _MISSING), "value": getattr(exc, "value", _MISSING)}
+        lcv = getattr(exc, "level_constrained_values", _MISSING)
+        av = getattr(exc, "allowed_values", _MISSING)
+        bad = None
+        if got != {"key": k, "value": v} or not isinstance(lcv, dict) or dict(lcv) != dict(d):
+            bad = "key / value / level_constrained_values"
+        elif not hasattr(av, "__contains__"):
+            bad = "allowed_values is not a value set"
+        elif k not in d and probes:
+            wrong = [x for x in probes if (x in av) is not _m_allowed(mtable, dict(d, **{k: x}))]
+            if wrong:
+                bad = "allowed_values differs from the values x making the prefix + {key: x} an allowed combination, for x in %r" % (wrong[:6],)
+        if bad:
+            fails.add("validator-exception-fields", lambda: {
+                "what": "ValueNotAllowedInLevel does not describe the rejected value as documented (%s)" % bad,
+                "inputs": inputs(k, v), "expected": {"key": k, "value": v, "level_constrained_values": dict(d)},
+                "observed": {"key": repr(got["key"]), "value": repr(got["value"]), "level_constrained_values": repr(lcv), "allowed_values": repr(av)}})
+            return None
+    return acc
+
+
+def _validator_walks(vmods, model, ttext, keys, u, fails, counters, rich, rot):
+    """The real assert_level_constraint on sequences over one synthetic table (installed by the caller).
+
+    rich: every sequence of (key, value) steps, value in 0..u-1 (first step also u, a value in no cell), in which the
+       keys come in ANY order, at most one step re-assigns a key that already has a value (the same or another
+       value), a key that no column lists may come first or second, and the length is at most len(keys) + 1; a
+       sequence is extended only while the real function accepts (as the validator stops at the first rejection).
+    not rich: the keys in one rotation (by rot) of their listed order, no repetition."""
+    State = vmods[3]
+    r = len(keys)
+    maxlen = r + 1 if rich else r
+    order = [keys[(rot + i) % r] for i in range(r)]
+    probes = list(range(u + 1))
+
+    def walk(st_parent, d, hist, path, nrep):
+        depth = len(path)
+        if rich:
+            cands = list(keys) + ([NOKEY] if depth <= 1 else [])
+        else:
+            cands = [order[depth]]
+        for k in cands:
+            rep = k in d
+            if rep and (nrep or not rich):
+                continue
+            if k is NOKEY:
+                values = (rot % u,)
+            elif rich and depth == 0:
+                values = range(u + 1)
+            else:
+                values = range(u)
+            for v in values:
+                st = State() if st_parent is None else _copy_state(State, st_parent)
+                acc = _vstep(vmods, model, st, d, hist, k, v, probes, fails,
+                             lambda k_, v_: {"table": ttext, "sequence": path + [(k_, v_)]}, counters)
+                if rep:
+                    counters["repeated"] += 1
+                if acc and depth + 1 < maxlen:
+                    d2 = OrderedDict(d)
+                    d2[k] = v
+                    walk(st, d2, hist | frozenset([(k, v)]), path + [(k, v)], nrep + (1 if rep else 0))
+
+    walk(None, OrderedDict(), frozenset(), [], 0)
+
+
+def _check_table(ct, vmods, real, model, ttext, keys, u, fails, counters, vmode=1, rot=0):
     """All queries on one table.  Domain of already-chosen values: 0..u-1; of the queried value: 0..u."""
     nokey = "c17_key_in_no_column"
     has_catch_all = any(len(col) == 0 for col in model)
@@ -702,9 +982,18 @@ def _check_table(ct, vmods, real, model, ttext, keys, u, fails, counters, do_val
             # every partial assignment of the other keys (None = not chosen)
             choices = itertools.product([None] + list(range(u)), repeat=len(others))
         for choice in choices:
-            vals = dict((o, c) for o, c in zip(others, choice) if c is not None)
+            items = [(o, c) for o, c in zip(others, choice) if c is not None]
+            if rot & 1:
+                items.reverse()  # the already-chosen values are given in either order
+            vals = dict(items)
             counters["avf"] += 1
             S = ct.allowed_values_for(real, k, dict(vals))
+            if not vals:
+                # "nothing chosen" through the default argument as well
+                S0 = ct.allowed_values_for(real, k)
+                if not isinstance(S0, ct.ValueSet) or [v in S0 for v in range(u + 1)] != [v in S for v in range(u + 1)]:
+                    fails.add("table-allowed_values_for-default", lambda: {"what": "allowed_values_for(T, k) differs from allowed_values_for(T, k, {})",
+                                                                   "inputs": dict(inputs0, key=k), "expected": repr(S), "observed": repr(S0)})
             if not isinstance(S, ct.ValueSet):
                 fails.add("table-allowed_values_for-type", lambda: {"what": "allowed_values_for did not return a ValueSet", "inputs": dict(inputs0, key=k, values=vals),
                                                             "expected": "ValueSet", "observed": repr(S)})
@@ -738,56 +1027,22 @@ def _check_table(ct, vmods, real, model, ttext, keys, u, fails, counters, do_val
                                                   "observed": {"substituted": S2 is sub, "default result is AnyValue": isinstance(S, ct.AnyValue)}})
     allowed_real({})
 
-    if do_validator and vmods and not has_catch_all:
-        assertions, level_constraints, VNA, State = vmods
+    if vmode and vmods and not has_catch_all:
         _install_table(vmods, real)
-
-        def walk(prefix, depth):
-            k = keys[depth]
-            for v in range(u):
-                counters["validator"] += 1
-                st = State()
-                if depth:
-                    st["_level_constrained_values"] = OrderedDict(prefix)
-                ext = OrderedDict(prefix)
-                ext[k] = v
-                exp = _m_allowed(model, ext)  # the prefix ending here is an allowed combination
-                exc = None
-                try:
-                    assertions.assert_level_constraint(st, k, v)
-                    acc = True
-                except VNA as e:
-                    acc = False
-                    exc = e
-                after = list(st.get("_level_constrained_values", {}).items())
-                want_after = list(ext.items()) if exp else list(prefix)
-                if acc is not exp or after != want_after:
-                    fails.add("validator-sequence", lambda: {
-                        "what": "one-at-a-time check (assert_level_constraint) does not accept exactly the sequences whose every prefix is an allowed combination",
-                        "inputs": dict(inputs0, sequence=list(ext.items())), "expected": {"accepted": exp, "recorded": want_after},
-                        "observed": {"accepted": acc, "recorded": after}})
-                elif exc is not None and (getattr(exc, "key", k) != k or getattr(exc, "value", v) != v):
-                    fails.add("validator-exception-fields", lambda: {"what": "ValueNotAllowedInLevel names another key/value than the rejected one",
-                                                             "inputs": dict(inputs0, sequence=list(ext.items())), "expected": [k, v],
-                                                             "observed": [getattr(exc, "key", None), getattr(exc, "value", None)]})
-                if acc and exp and depth + 1 < r:
-                    walk(list(ext.items()), depth + 1)
-
-        walk([], 0)
+        _validator_walks(vmods, model, ttext, keys, u, fails, counters, vmode == 2, rot)
 
 
 def _w_tables(job):
     """job: (ncols, nkeys, u, specials, index iterable spec, seed)"""
-    ncols, nkeys, u, specials, spec, sym, seed = job
+    ncols, nkeys, u, specials, spec, sym, vstride, seed = job
     ct = _load()
     vmods = None if _VALIDATOR_BROKEN else _load_validator()
     cells = _cell_variants(ct, u)
     special_any[0] = ct.AnyValue()
-    keys = ["k%d" % i for i in range(nkeys)]
     base = len(cells) + len(specials)
     ncell = ncols * nkeys
     fails = _Fails()
-    counters = {"tables": 0, "queries": 0, "avf": 0, "validator": 0, "nontrivial": 0}
+    counters = dict.fromkeys(_TABLE_COUNTERS, 0)
     saved = (getattr(vmods[0], "LEVEL_CONSTRAINTS", None), vmods[1].LEVEL_CONSTRAINTS) if vmods else None
     if spec[0] == "range":
         indices = range(spec[1], spec[2])
@@ -808,12 +1063,19 @@ def _w_tables(job):
             for _ in range(ncell):
                 digits.append(x % base)
                 x //= base
-            real, model, ttext = _table_from_digits(digits, ncols, keys, cells, specials, idx)
+            kept = counters["tables"]
+            # key names are those of the real level table, "level" in every position (and absent); under the symmetric
+            # reduction every other table lists its columns in decreasing instead of increasing order
+            keys = _key_names(kept, nkeys)
+            real, model, ttext = _table_from_digits(digits, ncols, keys, cells, specials, idx, reverse=bool(sym and kept & 1))
             counters["tables"] += 1
             if len(set(ttext[1:-1].split("}, {"))) > 1 or (ncols == 1 and any(col and all(c is ANY or c for c in col.values()) for col in model)):
                 counters["nontrivial"] += 1
+            vmode = 2 if kept % vstride == 0 else 1
+            if vmode == 2 and not any(len(col) == 0 for col in model):
+                counters["rich_tables"] += 1
             try:
-                _check_table(ct, vmods, real, model, ttext, keys, u, fails, counters)
+                _check_table(ct, vmods, real, model, ttext, keys, u, fails, counters, vmode, kept // 2)
             except Exception:
                 fails.add("table-exception", lambda: {"what": "unexpected exception from the constraint-table functions", "inputs": {"table": ttext},
                                               "expected": "no exception", "observed": traceback.format_exc(limit=6)})
@@ -829,15 +1091,48 @@ def _w_tables(job):
     return counters, fails
 
 
-def _split_jobs(ncols, nkeys, u, specials, sym, seed, sample=None, pieces=None):
+_TABLE_COUNTERS = ("tables", "queries", "avf", "validator", "nontrivial", "rich_tables", "repeated", "ambiguous", "ambiguous_accepted")
+
+
+def _split_jobs(ncols, nkeys, u, specials, sym, seed, sample=None, pieces=None, vstride=1):
     base = (1 << u) + len(specials)
     total = base ** (ncols * nkeys)
     pieces = pieces or NPROC * 4
     if sample is not None:
         per = max(1, sample // pieces)
-        return [(ncols, nkeys, u, specials, ("sample", i, per), sym, seed) for i in range(pieces)], per * pieces
+        return [(ncols, nkeys, u, specials, ("sample", i, per), sym, vstride, seed) for i in range(pieces)], per * pieces
     step = max(1, -(-total // pieces))
-    return [(ncols, nkeys, u, specials, ("range", lo, min(total, lo + step)), sym, seed) for lo in range(0, total, step)], total
+    return [(ncols, nkeys, u, specials, ("range", lo, min(total, lo + step)), sym, vstride, seed) for lo in range(0, total, step)], total
+
+
+def _check_empty_table(ct, vmods, fails):
+    """A table with no column allows nothing (not even the empty combination); the validator rejects every value."""
+    n = 0
+    for vals in ({}, {"level": 1}):
+        n += 1
+        obs = {"filter": ct.filter_constraint_table([], dict(vals)), "is_allowed": ct.is_allowed_combination([], dict(vals)),
+               "allowed_values_for contains 0, 1": [x in ct.allowed_values_for([], "profile", dict(vals)) for x in (0, 1)]}
+        exp = {"filter": [], "is_allowed": False, "allowed_values_for contains 0, 1": [False, False]}
+        if obs != exp:
+            fails.add("table-empty", lambda: {"what": "a table without columns must allow no combination", "inputs": {"table": "[]", "values": dict(vals)},
+                                              "expected": exp, "observed": repr(obs)})
+    if vmods:
+        assertions, level_constraints, VNA, State = vmods
+        saved = (getattr(assertions, "LEVEL_CONSTRAINTS", None), level_constraints.LEVEL_CONSTRAINTS)
+        counters = dict.fromkeys(_TABLE_COUNTERS, 0)
+        try:
+            _install_table(vmods, [])
+            for k, v in (("level", 0), ("profile", 1)):
+                n += 1
+                try:
+                    _vstep(vmods, [], State(), {}, frozenset(), k, v, [0, 1], fails, lambda k_, v_: {"table": "[]", "sequence": [(k_, v_)]}, counters)
+                except Exception:
+                    tb = traceback.format_exc(limit=6)
+                    fails.add("validator-exception", lambda: {"what": "assert_level_constraint raised something other than ValueNotAllowedInLevel",
+                                                              "inputs": {"table": "[]", "sequence": [(k, v)]}, "expected": "ValueNotAllowedInLevel", "observed": tb})
+        finally:
+            assertions.LEVEL_CONSTRAINTS, level_constraints.LEVEL_CONSTRAINTS = saved
+    return n
 
 
 def _part_tables(rep, tier, seed):
@@ -848,35 +1143,40 @@ def _part_tables(rep, tier, seed):
         rep.extra_assumptions.append("the validator modules could not be imported (reported as a violation); the one-at-a-time clause was NOT exercised in this run")
     thorough = tier == "thorough"
     total = _Fails()
+    _check_empty_table(ct, None if _VALIDATOR_BROKEN else _load_validator(), total)
     plain, special = [], []
-    # (ncols, nkeys, universe size, symmetric reduction, sample or None)
-    for nk in (1, 2, 3):
-        plain.append((1, nk, 4, False, None))
-    plain += [(2, 1, 4, False, None)]
+    # (ncols, nkeys, universe size, symmetric reduction, sample or None, vstride): every vstride-th table of a family gets the
+    # rich validator walks (all key orders, a repeated key, an unlisted key), the others one rotated key order
+    for nk in (1, 2):
+        plain.append((1, nk, 4, False, None, 1))
+    plain += [(1, 3, 4, False, None, 16 if thorough else 32), (2, 1, 4, False, None, 1)]
     if thorough:
-        plain += [(2, 2, 4, False, None), (2, 3, 3, False, None), (2, 3, 4, False, 250000), (2, 2, 5, True, None), (3, 2, 3, True, None), (3, 2, 4, False, 300000),
-                  (3, 3, 2, False, None), (3, 3, 3, False, 100000)]
+        plain += [(2, 2, 4, False, None, 32), (2, 3, 3, False, None, 128), (2, 3, 4, False, 250000, 256), (2, 2, 5, True, None, 128), (3, 2, 3, True, None, 32),
+                  (3, 2, 4, False, 300000, 256), (3, 3, 2, False, None, 64), (3, 3, 3, False, 100000, 128)]
     else:
-        plain += [(2, 2, 4, True, None), (2, 3, 2, False, None), (2, 3, 3, False, 24000), (2, 3, 4, False, 6000), (3, 2, 3, True, None)]
+        plain += [(2, 2, 4, True, None, 48), (2, 3, 2, False, None, 4), (2, 3, 3, False, 5000, 32), (2, 3, 4, False, 2000, 64), (3, 2, 3, True, None, 48),
+                  (3, 3, 3, False, 1000, 16)]
     sp = ("ANY", "MISSING")
-    special += [(1, 2, 3, False, None), (2, 1, 3, False, None), (2, 2, 3, False, None)]
+    special += [(1, 2, 3, False, None, 1), (2, 1, 3, False, None, 1), (2, 2, 3, False, None, 16)]
     if thorough:
-        special += [(2, 3, 2, False, None), (3, 2, 2, False, None), (2, 3, 3, False, 150000), (3, 3, 2, False, 150000), (3, 2, 3, False, 200000)]
+        special += [(2, 3, 2, False, None, 32), (3, 2, 2, False, None, 16), (2, 3, 3, False, 150000, 128), (3, 3, 2, False, 150000, 128), (3, 2, 3, False, 200000, 128)]
     else:
-        special += [(2, 3, 2, True, None), (3, 2, 2, True, None), (2, 3, 3, False, 6000)]
+        special += [(2, 3, 2, True, None, 48), (3, 2, 2, True, None, 8), (2, 3, 3, False, 3000, 32)]
 
     def run(configs, specials):
         jobs, descr = [], []
-        for (nc, nk, u, sym, sample) in configs:
-            js, n = _split_jobs(nc, nk, u, specials, sym, seed, sample)
+        for (nc, nk, u, sym, sample, vstride) in configs:
+            js, n = _split_jobs(nc, nk, u, specials, sym, seed, sample, vstride=vstride)
             jobs += js
             if sym:
                 import math
 
                 n = math.comb(((1 << u) + len(specials)) ** nk + nc - 1, nc)
-            descr.append("%d column(s) x %d key(s) over 0..%d: %s" % (nc, nk, u - 1, ("%d seeded random tables" % n) if sample else
-                                                                     ("all %d tables%s" % (n, " (one per multiset of columns, i.e. up to column order)" if sym else ""))))
-        agg = {"tables": 0, "queries": 0, "avf": 0, "validator": 0, "nontrivial": 0}
+            descr.append("%d column(s) x %d key(s) over 0..%d: %s [rich validator walks on every %s table]"
+                         % (nc, nk, u - 1, ("%d seeded random tables" % n) if sample else
+                            ("all %d tables%s" % (n, " (one per multiset of columns; the column order alternates between increasing and decreasing)" if sym else "")),
+                            {1: ""}.get(vstride, "%d-th" % vstride)))
+        agg = dict.fromkeys(_TABLE_COUNTERS, 0)
         fl = _Fails()
         for (c, f) in _pool_map(_w_tables, jobs):
             for k in agg:
@@ -892,13 +1192,20 @@ def _part_tables(rep, tier, seed):
         "Tables without catch-all columns, every column listing every key, every cell any subset of the universe (built as values, as maximal ranges, or mixed): "
         + "; ".join(descr) + ". For every table: every partial assignment vals of the keys (values in the universe), every key k not in vals and a key no column lists, "
         "every v in the universe plus one value outside it: v in allowed_values_for(T, k, vals) == is_allowed_combination(T, vals + {k: v}) == (some column contains the "
-        "combination); filter_constraint_table returns exactly the containing columns; and the real assert_level_constraint, run with the "
-        "enumerated table in place of LEVEL_CONSTRAINTS, on every sequence of values for the keys in the fixed order k0, k1, k2 (distinct keys, values in the universe): a value is "
-        "accepted and recorded iff the prefix ending with it is an allowed combination, and a rejected value leaves the recorded values unchanged",
+        "combination), the already-chosen values given in either order and 'nothing chosen' also through the default argument; filter_constraint_table returns exactly the "
+        "containing columns; and the real assert_level_constraint(state, key, value), run with the enumerated table in place of LEVEL_CONSTRAINTS (restored afterwards), the keys "
+        "named after keys of the real level table with 'level' in every position of the table or absent. Rich walks (every n-th table as stated per family): EVERY sequence of "
+        "(key, value) steps, values in the universe (first step also one value outside it), the keys in ANY order, at most one step that gives a key again (same or another "
+        "value), a key that no column lists first or second, length <= number of keys + 1, each sequence extended while the real function accepts, every continuation on an "
+        "independent copy of the State. Other tables: the keys in one rotation of their order. After every call: accepted iff the dictionary of the accepted values so far plus "
+        "{key: value} is an allowed combination (so exactly the sequences whose every prefix is allowed are accepted); otherwise ValueNotAllowedInLevel carrying the key, the "
+        "value, the earlier values and an allowed_values set equal to {x: prefix + {key: x} allowed}; the recorded values are exactly the accepted ones",
         agg["tables"], not sampled, distinct=agg["nontrivial"],
         samples=_samples_tables(ct),
-        note="evaluations = tables; on them %d filter/is_allowed queries, %d allowed_values_for calls, %d assert_level_constraint calls. distinct = tables with >= 2 different columns"
-             % (agg["queries"], agg["avf"], agg["validator"]))
+        note="evaluations = tables; on them %d filter/is_allowed queries, %d allowed_values_for calls, %d assert_level_constraint calls (%d tables with rich walks; %d calls give a "
+             "key again, of which %d with another value where the two readings of the statement differ: the real function accepted %d of those). distinct = tables with >= 2 different columns"
+             % (agg["queries"], agg["avf"], agg["validator"], agg["rich_tables"], agg["repeated"], agg["ambiguous"], agg["ambiguous_accepted"]))
+    rep.extra_coverage["C17_validator_synthetic_tables"] = dict((k, agg[k]) for k in ("validator", "rich_tables", "repeated", "ambiguous", "ambiguous_accepted"))
     agg2, fl, descr = run(special, sp)
     total.merge(fl)
     rep.add_bounded(
@@ -908,7 +1215,8 @@ def _part_tables(rep, tier, seed):
         "the property's equivalence when the table has no catch-all column and against the union of the sets the containing columns list for the key when it has one; the "
         "any_value substitute is returned exactly when AnyValue is allowed; the one-at-a-time validator check as above on the tables without a catch-all column",
         agg2["tables"], not any(c[4] for c in special), distinct=agg2["nontrivial"],
-        note="evaluations = tables; %d filter/is_allowed queries, %d allowed_values_for calls, %d assert_level_constraint calls" % (agg2["queries"], agg2["avf"], agg2["validator"]))
+        note="evaluations = tables; %d filter/is_allowed queries, %d allowed_values_for calls, %d assert_level_constraint calls (%d tables with rich walks, %d calls giving a key again)"
+             % (agg2["queries"], agg2["avf"], agg2["validator"], agg2["rich_tables"], agg2["repeated"]))
     return total
 
 
@@ -966,9 +1274,9 @@ def _m_cell(cell, left):
     """Documented cell format -> ('any',) | ('set', [atoms]) where an atom is ('v', x) or ('r', lo, hi)."""
     s = cell.strip()
     if s and all(ch in _DITTO_CHARS or ch.isspace() for ch in s):
-        if left is None:
-            raise ValueError("ditto in the first value column: not covered by the documented format")
-        return left
+        # "the same value as the column to their left": the first value column has no value cell to its left in this row,
+        # so nothing is listed (rows are independent of each other: a ditto never refers to another row)
+        return left if left is not None else ("set", [])
     if s == "any":
         return ("any",)
     if s == "":
@@ -1071,6 +1379,7 @@ def _gen_csv(rng):
     ncols = rng.randint(1, 5)
     nrows = rng.randint(1, 7)
     eol = rng.choice(["\n", "\r\n"])
+    p_ditto = rng.choice([0.2, 0.2, 0.5])  # a third of the files are ditto-heavy
     lines = []
     feats = set()
 
@@ -1101,18 +1410,21 @@ def _gen_csv(rng):
     for r in range(nrows):
         while rng.random() < 0.25:
             lines.append(comment_row() if rng.random() < 0.7 else "")
-        cells = ["key%d" % r if rng.random() < 0.8 else "k %d" % r]
+        x = rng.random()
+        cells = ["key%d" % r if x < 0.8 else "k %d" % r if x < 0.95 else "# odd key %d" % r]  # (a row with a '#' key is a key row unless all its cells are empty or '#' cells)
         for c in range(ncols):
             x = rng.random()
             if x < 0.15:
                 cells.append("")
                 feats.add("empty cell")
             elif x < 0.30:
-                cells.append("any")
+                cells.append(rng.choice(["any", "any", "any", " any", "any "]))
                 feats.add("any")
-            elif x < 0.50 and c > 0:
-                cells.append(rng.choice(['"', '"', "“"]))
+            elif x < 0.30 + p_ditto:
+                cells.append(rng.choice(['"', '"', "“", "”", ' " ', '""']))
                 feats.add("ditto")
+                if c == 0:
+                    feats.add("ditto in the first value column")
             else:
                 k = rng.choice([1, 1, 1, 2, 3, 4])
                 if k > 1:
@@ -1123,6 +1435,112 @@ def _gen_csv(rng):
         lines.append(comment_row())
     text = eol.join(lines) + (eol if rng.random() < 0.8 else "")
     return text, feats
+
+
+_GRID_KINDS = ("empty", "any", "value", "range", "multi", "ditto")
+
+
+def _grid_cell(kind, pos, var):
+    """-> (text written, content written or None for a ditto mark).  The numbers depend on the position of the cell in
+    the file, so that content taken from any other cell is noticed."""
+    b = 20 * pos
+    if kind == "empty":
+        return "", ("set", [])  # (a cell of blanks only is not an 'empty cell' of the documented format: see _observations)
+    if kind == "any":
+        return ("any", " any", "any ")[var % 3], ("any",)
+    if kind == "value":
+        if var % 4 == 3:
+            tv = bool(pos & 1)
+            return ("TRUE" if tv else "FALSE"), ("set", [("v", tv)])
+        return ("%d", " %d", "%d ")[var % 3] % (b + 3), ("set", [("v", b + 3)])
+    if kind == "range":
+        return ("%d-%d", " %d-%d ")[var % 2] % (b + 5, b + 8), ("set", [("r", b + 5, b + 8)])
+    if kind == "multi":
+        if var % 2:
+            return "%d, %d-%d, TRUE" % (b + 1, b + 10, b + 12), ("set", [("v", b + 1), ("r", b + 10, b + 12), ("v", True)])
+        return "%d-%d,%d,%d" % (b + 14, b + 14, b + 12, b + 1), ("set", [("r", b + 14, b + 14), ("v", b + 12), ("v", b + 1)])
+    if kind == "ditto":
+        return ('"', "“", ' " ', '""', "”")[var % 5], None
+    raise ValueError(kind)
+
+
+def _grid_csv(nrows, ncols, code, style):
+    """The code-th file of the grid 'every cell of an nrows x ncols table is one of the six kinds of cell'.
+    style selects what stands between the key rows (nothing / a comment row / a blank line / a row of empty cells / a row of
+    comment cells), minimal or full quoting, LF or CRLF, a leading comment row, and rotates the spelling of the cells.
+    -> (text, the table written: one {key: content} per value column, [(column, kind of the cell to the left)] of the dittos)"""
+    names = _real_key_names()
+    sep = style % 5
+    quote_all = (style // 5) % 2
+    eol = ("\n", "\r\n")[(style // 10) % 2]
+    header = (style // 20) % 2
+    var0 = style // 40
+    lines = []
+    written = [{} for _ in range(ncols)]
+    dittos = []
+    if header:
+        lines.append("# (11.2.1)" + ",# a" * ncols)
+    x = code
+    for r in range(nrows):
+        if r and sep:
+            lines.append({1: "# note" + "," * ncols, 2: "", 3: "," * ncols, 4: ",".join(["# c"] * (ncols + 1))}[sep])
+        key = names[r % len(names)]
+        cells = [key]
+        left = None
+        left_kind = "nothing"
+        for c in range(ncols):
+            kind = _GRID_KINDS[x % 6]
+            x //= 6
+            pos = r * ncols + c
+            text, content = _grid_cell(kind, pos, var0 + pos + code)
+            if content is None:
+                dittos.append((c, left_kind))
+                content = left if left is not None else ("set", [])
+            else:
+                left_kind = kind
+            left = content
+            written[c][key] = content
+            cells.append(text)
+        lines.append(",".join(('"' + t.replace('"', '""') + '"') if (quote_all or "," in t or '"' in t) else t for t in cells))
+    return eol.join(lines) + eol, written, dittos
+
+
+def _w_csv_grid(job):
+    nrows, ncols, lo, hi, nrot, tmpdir = job  # nrot: number of styles per table (rotating with the table), 0 = all 40 layouts
+    ct = _load()
+    fails = _Fails()
+    n_files = n_cells = 0
+    ditto_seen = {}
+    path = os.path.join(tmpdir, "g%d_%d_%d_%d.csv" % (nrows, ncols, lo, os.getpid()))
+    for code in range(lo, hi):
+        for style in (range(40) if not nrot else [(code * 7 + i * 37) % 200 for i in range(nrot)]):
+            text, written, dittos = _grid_csv(nrows, ncols, code, style)
+            if _m_read_csv(text) != written:
+                raise RuntimeError("C17 checker: the independent CSV reader does not read back what the grid writer wrote: %r" % (text,))
+            with open(path, "w", encoding="utf-8", newline="") as f:
+                f.write(text)
+            n_files += 1
+            for c, lk in dittos:
+                key = "ditto in the first value column" if c == 0 else "ditto after %s" % lk
+                ditto_seen[key] = ditto_seen.get(key, 0) + 1
+            inputs = {"csv_text": text}
+            try:
+                real = ct.read_constraints_from_csv(path)
+                n_cells += _compare_csv(ct, real, written, fails, inputs, "csvgrid")
+            except Exception:
+                tb = traceback.format_exc(limit=6)
+                fails.add("csvgrid-exception", lambda: {"what": "read_constraints_from_csv raised on a table in the documented format", "inputs": inputs,
+                                                        "expected": "no exception", "observed": tb})
+    if os.path.exists(path):
+        os.unlink(path)
+    return n_files, n_cells, ditto_seen, fails
+
+
+def _scratch_dir():
+    """a scratch directory for the generated CSV files, in memory when the machine offers it (opening files on the disk is
+    what dominated the run time)"""
+    shm = "/dev/shm"
+    return tempfile.mkdtemp(prefix="c17_csv_", dir=shm if os.path.isdir(shm) and os.access(shm, os.W_OK | os.X_OK) else None)
 
 
 def _w_csv(job):
@@ -1156,8 +1574,8 @@ def _part_csv(rep, tier, seed):
     ct = _load()
     thorough = tier == "thorough"
     total = _Fails()
-    nfiles = 6000 if thorough else 800
-    tmpdir = tempfile.mkdtemp(prefix="c17_csv_")
+    nfiles = 8000 if thorough else 1600
+    tmpdir = _scratch_dir()
     try:
         step = max(1, nfiles // (NPROC * 2))
         jobs = [(lo, min(nfiles, lo + step), seed, tmpdir) for lo in range(0, nfiles, step)]
@@ -1174,12 +1592,46 @@ def _part_csv(rep, tier, seed):
     rep.add_bounded(
         "C17.csv.random",
         "SAMPLED (seeded, seed=%d): %d CSV texts from an own writer: 1..5 value columns x 1..7 key rows plus interleaved empty / '#'-comment rows; cells: empty, 'any', ditto "
-        "(\" or “, never in the first value column), or 1..4 comma-separated tokens each a non-negative integer, an inclusive range lo-hi with lo <= hi, TRUE or FALSE; random "
+        "(\", “, ”, \"\" or \" with blanks; in any value column including the first; a third of the files ditto-heavy), or 1..4 comma-separated tokens each a non-negative integer, an inclusive range lo-hi with lo <= hi, TRUE or FALSE; random "
         "quoting, LF or CRLF; rectangular rows, unique keys. Each file is read by read_constraints_from_csv and by an independent reader of the documented format; compared "
         "cell by cell: AnyValue vs ValueSet, membership on every written/read endpoint +-1 and True/False, and the Python types of the values read (bool vs int)" % (seed, nf),
         nf, False, distinct=nc,
         samples=_samples_csv(ct, seed),
         note="distinct = cells compared; files using each feature: %s" % ", ".join("%s: %d" % kv for kv in sorted(feats.items())))
+
+    # ---- the grid: every cell of a small table is each kind of cell (ditto in every position, after every kind of cell)
+    grids = [(2, 3, 1), (3, 2, 1), (2, 2, 4), (1, 4, 2), (4, 1, 2), (1, 1, 0)]
+    if thorough:
+        grids = [(2, 3, 4), (3, 2, 4), (2, 2, 0), (1, 4, 0), (4, 1, 0), (1, 1, 0), (1, 5, 2), (5, 1, 2)]
+    tmpdir = _scratch_dir()
+    try:
+        jobs = []
+        for (nr, ncl, nrot) in grids:
+            n = 6 ** (nr * ncl)
+            step = max(1, -(-n // (NPROC * (2 if n > 5000 else 1))))
+            jobs += [(nr, ncl, lo, min(n, lo + step), nrot, tmpdir) for lo in range(0, n, step)]
+        gf = gc = 0
+        dseen = {}
+        for (a, b, ds, fl) in _pool_map(_w_csv_grid, jobs):
+            gf += a
+            gc += b
+            for k, v in ds.items():
+                dseen[k] = dseen.get(k, 0) + v
+            total.merge(fl)
+    finally:
+        shutil.rmtree(tmpdir, ignore_errors=True)
+    rep.add_bounded(
+        "C17.csv.grid",
+        "EXHAUSTIVE over the kinds of cell: every table of %s (key rows x value columns) in which each cell is empty, 'any', a single value (integer, TRUE or FALSE), a range, "
+        "a quoted list of values and ranges, or a ditto mark (\", “, ”, \"\" or \" with blanks) -- so a ditto stands in every column including the first, after every kind "
+        "of cell, after another ditto, and on consecutive rows; the numbers written depend on the position of the cell. Each table is written in several of 40 layouts (%s) "
+        "(nothing / a '#' comment row / a blank line / a row of empty cells / a row of comment cells between the key rows; minimal or full quoting; LF or CRLF; with or without a "
+        "leading comment row) with rotating spellings (blanks around cells and after commas). read_constraints_from_csv must return, per value column and key, exactly what was "
+        "written (a ditto: the content of the value cell to its left in the same row; in the first value column: nothing), compared as in C17.csv.random; the independent reader "
+        "must agree with the writer on every file (else checker error)"
+        % (", ".join("%dx%d" % (a, b) for a, b, _ in grids), ", ".join("%dx%d: %s" % (a, b, c or "all") for a, b, c in grids)),
+        gf, True, distinct=gc,
+        note="distinct = cells compared; ditto cells by position: %s" % ", ".join("%s: %d" % kv for kv in sorted(dseen.items())))
 
     # ---- the shipped level_constraints.csv
     import vc2_conformance
@@ -1264,6 +1716,211 @@ def _part_csv(rep, tier, seed):
     return total
 
 
+# ================================================================================================
+# (4) the validator on the real level table
+# ================================================================================================
+_REAL_MODEL = []
+
+
+def _real_model():
+    """(model columns as read by the independent CSV reader, the same as ANY/_CellSet cells, key names in file order)"""
+    if not _REAL_MODEL:
+        with open(_level_csv_path(), encoding="utf-8", newline="") as f:
+            model = _m_read_csv(f.read())
+        keys = []
+        for c in model:
+            for k in c:
+                if k not in keys:
+                    keys.append(k)
+        mtable = [dict((k, ANY if v[0] == "any" else _CellSet(v)) for k, v in c.items()) for c in model]
+        _REAL_MODEL.append((model, mtable, keys))
+    return _REAL_MODEL[0]
+
+
+def _key_candidates(model, mtable, key, rng, n):
+    """<= n values for `key`, one from each class of values told apart by the columns (two values are in one class when
+    exactly the same columns allow them), drawn from the written endpoints, their neighbours, 0, 1, TRUE and FALSE."""
+    pts = set([0, 1])
+    has_bool = False
+    for col in model:
+        cm = col.get(key)
+        if cm is not None and cm[0] == "set":
+            for p in _cell_points(cm):
+                if isinstance(p, bool):
+                    has_bool = True
+                else:
+                    pts.update((p - 1, p, p + 1))
+    pts = sorted(pts)
+    if has_bool:
+        pts = [False, True] + pts
+    classes = {}
+    for p in pts:
+        sig = tuple(key in col and (col[key] is ANY or p in col[key]) for col in mtable)
+        classes.setdefault(sig, []).append(p)
+    reps = [rng.choice(classes[sig]) for sig in sorted(classes)]
+    rng.shuffle(reps)
+    return reps[:n]
+
+
+def _w_real_validator(job):
+    """Sequences through the real assert_level_constraint reading the real LEVEL_CONSTRAINTS."""
+    kind, lo, hi, seed = job
+    _load()
+    vmods = _load_validator()
+    State = vmods[3]
+    model, mtable, keys = _real_model()
+    fails = _Fails()
+    counters = dict.fromkeys(("sequences", "validator", "rejected", "level_later", "level_absent", "repeated", "ambiguous", "ambiguous_accepted"), 0)
+    others = [k for k in keys if k != "level"]
+
+    def run(seq, probes_of):
+        """seq: [(key, value)]; continues after a rejection (which must have left the state as it was)"""
+        st = State()
+        d = OrderedDict()
+        hist = frozenset()
+        done = []
+        ks = [k for k, _ in seq]
+        counters["sequences"] += 1
+        counters["level_absent"] += 0 if "level" in ks else 1
+        counters["level_later"] += 1 if "level" in ks[1:] else 0
+        for k, v in seq:
+            if k in d:
+                counters["repeated"] += 1
+            prefix = list(done)
+            try:
+                acc = _vstep(vmods, mtable, st, d, hist, k, v, probes_of(k) if k not in d else None, fails,
+                             lambda k_, v_: {"table": "the shipped level_constraints.csv (vc2_conformance.level_constraints.LEVEL_CONSTRAINTS)",
+                                             "sequence": prefix + [(k_, v_)], "rejected steps are skipped": True}, counters)
+            except Exception:
+                tb = traceback.format_exc(limit=6)
+                fails.add("validator-exception", lambda: {"what": "assert_level_constraint raised something other than ValueNotAllowedInLevel", "inputs": {"sequence": prefix + [(k, v)]},
+                                                          "expected": "accepted, or ValueNotAllowedInLevel", "observed": tb})
+                return
+            if acc is None:
+                return
+            done.append((k, v))
+            if acc:
+                d[k] = v
+                hist = hist | frozenset([(k, v)])
+            else:
+                counters["rejected"] += 1
+
+    cand_cache = {}
+
+    def cands(k, rng, n=4):
+        if k not in cand_cache:
+            cand_cache[k] = _key_candidates(model, mtable, k, random.Random(seed * 613 + len(cand_cache)), 8)
+        c = cand_cache[k]
+        return c if len(c) <= n else rng.sample(c, n)
+
+    def probes_of(k):
+        return cand_cache.get(k) or cands(k, None, 8)
+
+    if kind == "pairs":
+        # every ordered pair of keys (also the same key twice), values from the classes of each key
+        pairs = [(a, b) for a in keys for b in keys]
+        for pi in range(lo, min(hi, len(pairs))):
+            a, b = pairs[pi]
+            rng = random.Random(seed * 7907 + pi)
+            for va in cands(a, rng, 3):
+                for vb in cands(b, rng, 3):
+                    run([(a, va), (b, vb)], probes_of)
+    elif kind == "triples":
+        # "level" with every ordered pair of other keys, "level" in each of the three positions
+        pairs = [(a, b) for a in others for b in others if a != b]
+        for pi in range(lo, min(hi, len(pairs))):
+            a, b = pairs[pi]
+            rng = random.Random(seed * 6007 + pi)
+            for _ in range(2):
+                col = rng.choice(model)
+                lv = rng.choice(sorted(_cell_points(col["level"])) or [0]) if col.get("level", ("any",))[0] == "set" else rng.choice(cands("level", rng))
+                seq = []
+                for k in (a, b):
+                    cm = col.get(k, ("set", []))
+                    pts = sorted(_cell_points(cm), key=int)
+                    seq.append((k, rng.choice(pts) if pts and rng.random() < 0.6 else rng.choice(cands(k, rng))))
+                seq.insert((pi + _) % 3, ("level", lv))
+                run(seq, probes_of)
+    else:
+        # random walks: a random subset of the keys in random order, values mostly from one column; "level" first, later, or
+        # not at all; some keys given again (same or another value)
+        for wi in range(lo, hi):
+            rng = random.Random(seed * 32452867 + wi)
+            col = rng.choice(model)
+            n = rng.randint(2, 9)
+            ks = rng.sample(others, min(n, len(others)))
+            mode = wi % 4  # 0: level first, 1: level at a random later position, 2: level absent, 3: level anywhere, possibly twice
+            if mode == 0:
+                ks.insert(0, "level")
+            elif mode == 1:
+                ks.insert(rng.randint(1, len(ks)), "level")
+            elif mode == 3:
+                ks.insert(rng.randint(0, len(ks)), "level")
+                if rng.random() < 0.5:
+                    ks.insert(rng.randint(0, len(ks)), "level")
+            if rng.random() < 0.5:
+                ks.insert(rng.randint(1, len(ks)), rng.choice(ks))  # a key given again
+            seq = []
+            given = {}
+            for k in ks:
+                cm = col.get(k, ("set", []))
+                pts = sorted(_cell_points(cm), key=int)
+                x = rng.random()
+                if k in given and x < 0.5:
+                    v = given[k]
+                elif x < 0.7 and pts:
+                    v = rng.choice(pts)
+                elif x < 0.85:
+                    v = rng.choice(cands(k, rng))
+                else:
+                    v = (rng.choice(pts) if pts else 0) + rng.choice([-1, 1, 2, 7])
+                given[k] = v
+                seq.append((k, v))
+            run(seq, probes_of)
+    return counters, fails
+
+
+def _part_validator_real(rep, tier, seed):
+    if _VALIDATOR_BROKEN:
+        return _Fails()
+    vmods = _load_validator()
+    model, mtable, keys = _real_model()
+    total = _Fails()
+    if any(len(c) == 0 for c in mtable):
+        rep.extra_assumptions.append("the live level table has a catch-all column; the validator walks on it were skipped")
+        return total
+    thorough = tier == "thorough"
+    nk = len(keys)
+    npairs = nk * nk
+    ntriples = (nk - 1) * (nk - 2)
+    nwalks = 40000 if thorough else 6000
+    jobs = []
+    for kind, n in (("pairs", npairs), ("triples", ntriples), ("walks", nwalks)):
+        step = max(1, -(-n // (NPROC * 2)))
+        jobs += [(kind, lo, min(n, lo + step), seed) for lo in range(0, n, step)]
+    agg = {}
+    for (c, f) in _pool_map(_w_real_validator, jobs):
+        for k, v in c.items():
+            agg[k] = agg.get(k, 0) + v
+        total.merge(f)
+    rep.add_bounded(
+        "C17.validator.real-table",
+        "The real assert_level_constraint(state, key, value) on a fresh State, reading the real LEVEL_CONSTRAINTS, against 'the dictionary of the values accepted so far plus "
+        "{key: value} is an allowed combination' evaluated on the independently parsed level_constraints.csv (%d keys x %d columns). EXHAUSTIVE over key orders of length 2: "
+        "every ordered pair of keys (%d, incl. a key given twice) with up to 3 x 3 values, one from each class of values the columns tell apart; 'level' together with every "
+        "ordered pair of other keys (%d pairs x 2 value choices), 'level' in each of the 3 positions. SAMPLED (seeded): %d random walks over 2..9 other keys in random order with "
+        "'level' first / at a random later position / absent / anywhere and possibly twice, and in half of the walks one key given again (same or another value); values from "
+        "one random column's cells, from the value classes, or perturbed by -1/+1/+2/+7. After every call: accepted or ValueNotAllowedInLevel as the statement says, the recorded "
+        "values are exactly the accepted ones, the exception names the key, the value, the earlier values and (for a new key) the allowed values; a walk continues after a "
+        "rejection (which must leave the state unchanged)" % (nk, len(model), npairs, ntriples, nwalks),
+        agg.get("sequences", 0), False, distinct=agg.get("rejected", 0),
+        note="evaluations = sequences; %d assert_level_constraint calls; distinct = calls that had to be rejected; sequences with 'level' after another key: %d, without 'level': %d; "
+             "calls giving a key again: %d (of which %d with another value where the two readings of the statement differ; the real function accepted %d of those)"
+             % (agg.get("validator", 0), agg.get("level_later", 0), agg.get("level_absent", 0), agg.get("repeated", 0), agg.get("ambiguous", 0), agg.get("ambiguous_accepted", 0)))
+    rep.extra_coverage["C17_validator_real_table"] = agg
+    return total
+
+
 class _CellSet(object):
     """frozenset-like view of a CSV cell model (values and inclusive ranges) for the table model"""
 
@@ -1304,7 +1961,7 @@ def _samples_tables(ct):
 
 def _samples_csv(ct, seed):
     text, _ = _gen_csv(random.Random(seed * 15485863 + 0))
-    d = tempfile.mkdtemp(prefix="c17_csv_")
+    d = _scratch_dir()
     try:
         path = os.path.join(d, "sample.csv")
         with open(path, "w", encoding="utf-8", newline="") as f:
@@ -1333,11 +1990,24 @@ def _observations(rep):
     except Exception as e:
         obs["string queried against an integer range (mixed incomparable types, excluded)"] = "raises " + type(e).__name__
     T = [{"k": ct.ValueSet(1), "j": ct.ValueSet(0)}, {"k": ct.ValueSet(2), "j": ct.ValueSet(0)}]
-    obs["repeated key (excluded: sequences have distinct keys)"] = {
+    obs["a key given again with ANOTHER value (the statement can be read two ways there; the check only counts such calls, see C17.validator.real-table and the table notes)"] = {
         "table": "[{'k': ValueSet(1), 'j': ValueSet(0)}, {'k': ValueSet(2), 'j': ValueSet(0)}]",
         "2 in allowed_values_for(T, 'k', {'k': 1}) (what a second assert_level_constraint('k', 2) after k=1 consults)": 2 in ct.allowed_values_for(T, "k", {"k": 1}),
         "is_allowed_combination(T, {'k': 2})": ct.is_allowed_combination(T, {"k": 2}),
+        "reading": "the real function rejects k=2 after k=1 here although {'k': 2} alone is an allowed combination: it requires one column to contain the old AND the new "
+                   "value of the key (at the first re-assignment), not the dictionary with the value replaced",
     }
+    d = _scratch_dir()
+    try:
+        path = os.path.join(d, "blank.csv")
+        with open(path, "w", encoding="utf-8", newline="") as f:
+            f.write("level,1, ,2\n")
+        try:
+            obs["a cell of blanks only (neither an 'empty cell' nor a value of the documented format; excluded)"] = repr(ct.read_constraints_from_csv(path))
+        except Exception as e:
+            obs["a cell of blanks only (neither an 'empty cell' nor a value of the documented format; excluded)"] = "raises " + repr(e)
+    finally:
+        shutil.rmtree(d, ignore_errors=True)
     rep.extra_coverage["C17_observations_outside_the_checked_bounds"] = obs
 
 
@@ -1345,6 +2015,9 @@ def _observations(rep):
 # hook
 # ================================================================================================
 def check_c17(rep, tier, seed):
+    global NPROC
+    if tier == "thorough" and "VERIF_C17_NPROC" not in os.environ:
+        NPROC = max(1, min(16, os.cpu_count() or 1))  # the thorough tier is sized for 16 workers (about 90 CPU minutes)
     _load()
     total = _Fails()
     try:
@@ -1358,9 +2031,12 @@ def check_c17(rep, tier, seed):
         total.add("levelcsv-exception", {"what": "loading vc2_conformance.level_constraints / decoder.assertions (which reads level_constraints.csv through "
                                                  "read_constraints_from_csv) raised", "inputs": {"import": "vc2_conformance.decoder.assertions"},
                                          "expected": "no exception", "observed": tb})
-    total.merge(_part_valueset(rep, tier, seed))
-    total.merge(_part_tables(rep, tier, seed))
-    total.merge(_part_csv(rep, tier, seed))
+    walls = {}
+    for name, part in (("valueset", _part_valueset), ("tables", _part_tables), ("csv", _part_csv), ("validator_real_table", _part_validator_real)):
+        t0 = time.time()
+        total.merge(part(rep, tier, seed))
+        walls[name] = round(time.time() - t0, 1)
+    rep.extra_coverage["C17_wall_seconds_by_part"] = walls
     _observations(rep)
     for kind in sorted(total.kept):
         rep.say("C17 %s: %d failing case(s)" % (kind, total.count[kind]))
@@ -1373,7 +2049,7 @@ def check_c17(rep, tier, seed):
         "BOUNDED stand-in, not a proof: the real ValueSet/AnyValue class, filter_constraint_table, is_allowed_combination, allowed_values_for, "
         "assert_level_constraint and read_constraints_from_csv of the tree under check were executed on the enumerated / seeded-random inputs listed under "
         "bounded_checks and compared with an independent set-semantics model (Python frozensets; own CSV reader); 'evaluations' counts programs, pairs, tables "
-        "and files run on the real code; the two 'obligations' are the ground comparisons of the shipped level_constraints.csv with the independent parse")
+        "files and validator sequences run on the real code; the two 'obligations' are the ground comparisons of the shipped level_constraints.csv with the independent parse")
     rep.extra_coverage["trusted_base"] = ["CPython 3.12 (set/frozenset semantics as reference)", "the independent model and CSV reader in /verif/bounded/c17_constraint_table.py"]
     rep.extra_coverage["checker_cmd"] = "./verif check C17 --tier %s  (bounded enumeration in a %d-process fork pool; no solver involved)" % (tier, NPROC)
 
@@ -1387,32 +2063,49 @@ REGISTER = {
         level="other",
         assumptions=[
             "BOUNDED stand-in, not a proof: every claim is limited to the enumerated / sampled domains listed under bounded_checks",
-            "ValueSet: integer universes 0..6 (quick) / 0..8 (thorough), <= 3 operations in every build mode (thorough: 4 operations in 6 build modes); ranges always have lo <= hi "
+            "ValueSet: integer universes 0..6 (quick) / 0..8 (thorough), <= 3 operations in every build mode (thorough: 4 operations in 6 build modes), plus 4-5 operations of the "
+            "special shape 'separated ranges, then one bridging atom' in 3-4 build modes; ranges always have lo <= hi "
             "(a reversed range is outside the bound; see C17_observations_outside_the_checked_bounds); strings only as single values; bool/IntEnum members only where they "
             "compare as integers; values of mutually incomparable types (a string against an integer range) are outside the bound",
             "equality of ValueSets is checked for soundness only (== implies same set); neither the property nor the docstrings promise that equal sets compare equal, and they do not",
             "constraint tables (columns x keys over universe), quick tier: exhaustive 1x1, 1x2, 1x3, 2x1 over 0..3, 2x2 over 0..3 and 3x2 over 0..2 up to column order, 2x3 over 0..1; "
-            "seeded samples of 2x3 over 0..2 (24000 tables) and over 0..3 (6000). Thorough tier: exhaustive 2x2 over 0..3, 2x3 over 0..2, 3x3 over 0..1, 2x2 over 0..4 and 3x2 over 0..2 "
+            "seeded samples of 2x3 over 0..2 (5000 tables) and over 0..3 (2000), 3x3 over 0..2 (1000). Thorough tier: exhaustive 2x2 over 0..3, 2x3 over 0..2, 3x3 over 0..1, 2x2 over 0..4 and 3x2 over 0..2 "
             "up to column order; seeded samples of 2x3 over 0..3 (250000), 3x2 over 0..3 (300000), 3x3 over 0..2 (100000). Tables with AnyValue cells / missing keys / catch-all "
-            "columns: exhaustive up to 2x2 over 0..2, 2x3 and 3x2 over 0..1; sampled 2x3 over 0..2 (thorough also 3x3 over 0..1 and 3x2 over 0..2). String keys. The exact "
+            "columns: exhaustive up to 2x2 over 0..2, 2x3 and 3x2 over 0..1; sampled 2x3 over 0..2 (3000; thorough 150000, also 3x3 over 0..1 and 3x2 over 0..2). String keys. The exact "
             "counts of each run are in the domain strings",
             "the validator clause runs the real assert_level_constraint with the module global LEVEL_CONSTRAINTS (in decoder/assertions.py and level_constraints.py) replaced by the "
-            "enumerated table (a canary confirms the replacement is effective), on a fresh State per sequence, keys distinct and in one fixed order; sequences that check the same "
-            "key twice (as the validator does for per-picture and per-slice values) are NOT covered",
+            "enumerated table (a canary confirms the replacement is effective; the real table is restored in a finally) and, separately, with the real table; every sequence starts "
+            "from a fresh State() and continuations of a prefix run on independent copies of the State the real function left behind; sequence length <= keys + 1 on synthetic "
+            "tables (all key orders on every n-th table, one rotated order on the others), <= 11 on the real table",
+            "a key given again with the SAME value must be accepted and change nothing. A key given again with ANOTHER value is judged only where both readings of 'every prefix is "
+            "an allowed combination' agree (reading A: the dictionary so far with the value replaced; reading B: one column contains every value ever accepted): must accept when "
+            "B accepts, must reject when A rejects; calls in between are counted (coverage keys C17_validator_*), not judged. On the unchanged tree the real function follows B at "
+            "the first re-assignment (it rejects k=2 after k=1 on [{k:1, j:0}, {k:2, j:0}] although {k: 2} is allowed)",
+            "the fields of ValueNotAllowedInLevel are checked against its docstring (key, value, level_constrained_values = the earlier accepted values, allowed_values = the "
+            "values x for which prefix + {key: x} is allowed, probed on the universe + 1 / on one value per class of values the real columns tell apart)",
             "a 'catch-all column' is read as a column with no cells at all (the code comment's 'catch all' rule); a key missing from a non-empty column means the column does not "
             "contain any combination mentioning that key (module docstring: the 'pickleable' example)",
             "CSV: an independent RFC-4180 reader and an independent reader of the documented cell format; generated files are rectangular, have unique keys, non-negative integers, "
-            "ranges with lo <= hi, upper-case TRUE/FALSE, lower-case 'any', no ditto in the first value column; '-5' style negative numbers are outside the documented format",
+            "ranges with lo <= hi, upper-case TRUE/FALSE, lower-case 'any'; blanks only around whole cells and after the commas of a list; a cell of blanks only and '-5' style "
+            "negative numbers are outside the documented format",
+            "a ditto mark ('the same value as the column to their left') is read as the content of the value cell to its left IN THE SAME ROW; in the first value column there is "
+            "no such cell and the ditto lists nothing (rows are independent: nothing is ever taken from another row); ditto marks written: \", “, ”, \"\" and \" with blanks",
+            "the CSV grid is exhaustive over the KINDS of cell (empty, any, value, range, list, ditto) of tables up to 2x3 / 3x2 / 1x4 / 4x1, not over their numeric contents; the "
+            "layouts (separator rows, quoting, line ends, leading comment row, spellings) rotate with the table (the number of layouts per table is in the domain string); generated CSV "
+            "files are written to /dev/shm when available",
             "trusted: CPython set/frozenset semantics as the reference model; the csv dialect of the shipped file is plain RFC-4180",
         ],
         manifest=dict(
             category="other",
             technique="bounded exhaustive / seeded enumeration of the real ValueSet, constraint-table and CSV functions against an independent set-semantics model",
-            text="Bounded stand-in: ValueSet membership/union/is_disjoint exhaustively for all programs of <= 3 (thorough 4) operations over 0..6 (0..8); the allowed_values_for <=> "
-                 "is_allowed_combination equivalence and the validator's one-at-a-time acceptance exhaustively for small tables (<= 2x3 over 0..2/0..3, 3x2), with AnyValue cells, missing "
-                 "keys and catch-all columns against the documented semantics; read_constraints_from_csv against an independent reader on seeded random CSVs and on the shipped "
+            text="Bounded stand-in: ValueSet membership/union/is_disjoint exhaustively for all programs of <= 3 (thorough 4) operations over 0..6 (0..8) plus chains of 3-4 separated "
+                 "ranges bridged by a last atom; the allowed_values_for <=> is_allowed_combination equivalence exhaustively for small tables (<= 2x3 over 0..2/0..3, 3x2), with AnyValue "
+                 "cells, missing keys and catch-all columns against the documented semantics; the validator's one-at-a-time acceptance through the real assert_level_constraint on a "
+                 "State, for all key orders / repeated / unlisted keys on small substituted tables and for all ordered key pairs, level-triples and seeded walks on the real level "
+                 "table; read_constraints_from_csv against an independent reader on an exhaustive grid of cell kinds (ditto everywhere), seeded random CSVs and the shipped "
                  "level_constraints.csv (every cell).",
-            note="Not a proof. Not covered: reversed ranges, incomparable mixed types, repeated keys in the one-at-a-time check, larger tables/universes, CSV text outside the documented format.",
+            note="Not a proof. Not covered: reversed ranges, incomparable mixed types, the ambiguous case of a key re-assigned to another value (counted only), larger tables/universes, "
+                 "CSV text outside the documented format.",
         ),
     ),
 }
